@@ -70,13 +70,17 @@ type Monitors struct {
 	stepMsg   *pb.Message
 	stepPrev  *raft.VerifDump
 	stepLast  [2]uint64
+	// C15: fault-free suffixes run / converged, rounds (ticks) needed
+	healRuns, healed, healRounds int
+	// property-relevant events on which a monitor evaluated its condition (evidence: what was exercised)
+	act map[string]int
 }
 
 func newMonitors(c *Cluster) *Monitors {
 	return &Monitors{c: c, seen: map[string]bool{}, handed: map[uint64]string{}, committed: map[uint64]string{},
 		leaders: map[uint64][2]uint64{}, leaderCfg: map[uint64]string{}, votes: map[[2]uint64]uint64{},
 		prevotes: map[[3]uint64]bool{}, persisted: map[uint64]*pb.HardState{}, confAt: map[uint64]string{},
-		reads: map[string]uint64{}, props: map[string]*propInfo{}, nm: map[uint64]*nodeMon{}}
+		reads: map[string]uint64{}, props: map[string]*propInfo{}, nm: map[uint64]*nodeMon{}, act: map[string]int{}}
 }
 
 func (m *Monitors) report(prop, class, format string, a ...any) {
@@ -88,6 +92,9 @@ func (m *Monitors) report(prop, class, format string, a ...any) {
 	m.seen[key] = true
 	m.viol = append(m.viol, Violation{Prop: prop, What: what, Seq: m.c.seq, Class: class})
 }
+
+// hit counts one evaluation of a monitor condition on a relevant event.
+func (m *Monitors) hit(what string) { m.act[what]++ }
 
 func (m *Monitors) node(n *Node) *nodeMon {
 	x := m.nm[n.id]
@@ -186,13 +193,14 @@ func (m *Monitors) onStart(n *Node) {
 	x.nextApply = snap.GetMetadata().GetIndex() + 1
 	// C07: the new incarnation continues from exactly the last persisted hard state
 	if p := m.persisted[n.id]; p != nil {
+		m.hit("C07.restart-from-persisted")
 		if d.Term != p.GetTerm() || d.Vote != p.GetVote() || d.Committed < p.GetCommit() {
 			m.report("C07", "", "node %d restarted with term/vote/commit %d/%d/%d, last persisted %s", n.id, d.Term, d.Vote, d.Committed, enc.HardState(p))
 		}
 	}
 }
 
-func (m *Monitors) onCrash(n *Node) {}
+func (m *Monitors) onCrash(n *Node) { m.hit("C05.crash") }
 
 func (m *Monitors) onReady(n *Node, rd *raft.Ready) {
 	x := m.node(n)
@@ -200,6 +208,7 @@ func (m *Monitors) onReady(n *Node, rd *raft.Ready) {
 	// C07 (a): exposed hard states
 	if rd.HardState != nil && !raft.IsEmptyHardState(rd.HardState) {
 		if p := x.lastRdHS; p != nil {
+			m.hit("C07.exposed-hardstate")
 			m.checkHS("exposed", n, p, rd.HardState)
 		}
 		x.lastRdHS = rd.HardState
@@ -223,6 +232,7 @@ func (m *Monitors) onReady(n *Node, rd *raft.Ready) {
 		}
 	}
 	if len(cents) > 0 {
+		m.hit("C08.handout-batch")
 		if d.UnstableSnapshot != nil {
 			m.report("C08", "", "node %d: committed entries handed out while a snapshot install is outstanding", n.id)
 		}
@@ -247,6 +257,7 @@ func (m *Monitors) onReady(n *Node, rd *raft.Ready) {
 	// C11
 	for _, rs := range rd.ReadStates {
 		ctx := string(rs.RequestCtx)
+		m.hit("C11.read-served")
 		want, ok := m.reads[ctx]
 		if !ok {
 			m.report("C11", "", "node %d: read state with unknown context %q", n.id, ctx)
@@ -261,6 +272,7 @@ func (m *Monitors) onReady(n *Node, rd *raft.Ready) {
 	// C16: append sizes
 	for _, mm := range rd.Messages {
 		if mm.GetType() == pb.MsgApp && len(mm.GetEntries()) > 1 {
+			m.hit("C16.multi-entry-append")
 			var sz uint64
 			for _, e := range mm.GetEntries() {
 				sz += uint64(proto.Size(e))
@@ -284,15 +296,20 @@ func (m *Monitors) checkHS(kind string, n *Node, p, h *pb.HardState) {
 
 func (m *Monitors) onPersistHS(n *Node, hs *pb.HardState) {
 	if p := m.persisted[n.id]; p != nil {
+		m.hit("C07.persisted-hardstate")
 		m.checkHS("persisted", n, p, hs)
 	}
 	m.persisted[n.id] = proto.Clone(hs).(*pb.HardState)
 }
 
-func (m *Monitors) onRestore(n *Node, snap *pb.Snapshot) {}
+func (m *Monitors) onRestore(n *Node, snap *pb.Snapshot) { m.hit("C09.snapshot-installed") }
 
 func (m *Monitors) onApply(n *Node, e *pb.Entry) {
 	k := entKey(e)
+	m.hit("C01.handout")
+	if _, ok := m.handed[e.GetIndex()]; ok {
+		m.hit("C01.handout-compared-with-another-node")
+	}
 	if old, ok := m.handed[e.GetIndex()]; ok && old != k {
 		class := ""
 		if m.c.tainted["F9"] {
@@ -317,6 +334,7 @@ func (m *Monitors) onApply(n *Node, e *pb.Entry) {
 
 func (m *Monitors) onConfApplied(n *Node, idx uint64, cs *pb.ConfState) {
 	s := enc.ConfStateSorted(cs)
+	m.hit("C10.conf-change-applied")
 	if old, ok := m.confAt[idx]; ok && old != s {
 		class := ""
 		if m.c.tainted["F9"] {
@@ -330,6 +348,11 @@ func (m *Monitors) onConfApplied(n *Node, idx uint64, cs *pb.ConfState) {
 
 func (m *Monitors) onPropose(tok string, out string, local bool) {
 	m.props[tok] = &propInfo{dropped: strings.Contains(out, "ProposalDropped"), local: local}
+	if strings.Contains(out, "ProposalDropped") {
+		m.hit("C20.proposal-dropped")
+	} else {
+		m.hit("C20.proposal-accepted")
+	}
 }
 
 func (m *Monitors) onReadIndex(ctx string) { m.reads[ctx] = m.maxReported }
@@ -350,6 +373,7 @@ func (m *Monitors) onBatch(n *Node, ents []*pb.Entry, out string) {
 		m.report("C20", "", "leader %d accepted a batch of %d entries but its log holds fewer", n.id, len(ents))
 		return
 	}
+	m.hit("C20.batch-accepted")
 	tail := v.ents[len(v.ents)-len(ents):]
 	for i, e := range ents {
 		g := tail[i]
@@ -387,6 +411,8 @@ func (m *Monitors) onSend(n *Node, msg *pb.Message) {
 			return
 		}
 		k := [2]uint64{n.id, msg.GetTerm()}
+		m.hit("C02.vote-granted")
+		m.hit("C05.vote-released")
 		if c, ok := m.votes[k]; ok && c != msg.GetTo() {
 			m.report("C02", "", "node %d granted its vote in term %d to %d and to %d", n.id, msg.GetTerm(), c, msg.GetTo())
 		}
@@ -404,10 +430,12 @@ func (m *Monitors) onSend(n *Node, msg *pb.Message) {
 			return
 		}
 		li, _ := n.st.LastIndex()
+		m.hit("C05.append-acknowledged")
 		if li < msg.GetIndex() && hs.GetTerm() <= msg.GetTerm() {
 			m.report("C05", "", "node %d acknowledged index %d in term %d while its storage ends at %d", n.id, msg.GetIndex(), msg.GetTerm(), li)
 		}
 	case pb.MsgSnap:
+		m.hit("C09.snapshot-sent")
 		if d := x.prev; d != nil && msg.GetSnapshot().GetMetadata().GetIndex() > d.Committed {
 			m.report("C09", "", "node %d sent a snapshot at %d beyond its commit %d", n.id, msg.GetSnapshot().GetMetadata().GetIndex(), d.Committed)
 		}
@@ -500,6 +528,9 @@ func (m *Monitors) afterOp(n *Node, kind string) {
 		}
 		ov := o.logView(od)
 		lo, hi := max(v.first, ov.first), min(v.last(), ov.last())
+		if hi >= lo && hi > 0 {
+			m.hit("C03.pair-of-overlapping-logs")
+		}
 		match := false
 		for i := hi; i >= lo && i > 0; i-- {
 			a, b := v.at(i), ov.at(i)
@@ -529,6 +560,7 @@ func (m *Monitors) afterOp(n *Node, kind string) {
 			continue
 		}
 		k := entKey(e)
+		m.hit("C01.newly-committed-index")
 		if old, ok := m.committed[i]; ok && old != k {
 			class := ""
 			if m.c.tainted["F5"] {
@@ -551,6 +583,8 @@ func (m *Monitors) afterOp(n *Node, kind string) {
 			m.report("C02", class, "term %d has two leaders: node %d (incarnation %d) and node %d (incarnation %d)", d.Term, l[0], l[1], n.id, n.inc)
 		} else if !ok {
 			m.leaders[d.Term] = me
+			m.hit("C02.leader-elected")
+			m.hit("C04.new-leader-vs-committed")
 			// C02: election quorum from grants on the wire (plus the own vote)
 			grant := func(id uint64) bool {
 				if id == n.id {
@@ -582,6 +616,7 @@ func (m *Monitors) afterOp(n *Node, kind string) {
 		if prev != nil && prev.State == raft.StateLeader && prev.Term == d.Term && d.Committed > prev.Committed {
 			c := d.Committed
 			e := v.at(c)
+			m.hit("C06.leader-commit-advanced")
 			if e != nil && e.GetTerm() != d.Term {
 				m.report("C06", "", "leader %d of term %d advanced commit to %d whose entry has term %d", n.id, d.Term, c, e.GetTerm())
 			}
@@ -628,6 +663,12 @@ func (m *Monitors) afterOp(n *Node, kind string) {
 		}
 		// C16: inflight window (count, and the byte budget up to the message that crosses it)
 		for id, p := range d.Progress {
+			if p.InflCount > 0 {
+				m.hit("C16.inflight-window-nonempty")
+			}
+			if p.InflFull {
+				m.hit("C16.inflight-window-full")
+			}
 			if p.InflCount > n.cfg.MaxInflight {
 				m.report("C16", "", "leader %d has %d inflight appends to %d, limit %d", n.id, p.InflCount, id, n.cfg.MaxInflight)
 			}
@@ -664,6 +705,7 @@ func (m *Monitors) afterOp(n *Node, kind string) {
 			}
 		}
 		if n.cfg.CheckQuorum && kind == "tick" && x.ticks-x.leadStart > 2*n.cfg.ET {
+			m.hit("C17.checkquorum-window-elapsed")
 			recent := func(id uint64) bool {
 				if id == n.id {
 					return true
@@ -680,6 +722,10 @@ func (m *Monitors) afterOp(n *Node, kind string) {
 	}
 	// campaign checks (C10 hup, C17)
 	if prev != nil && (d.State == raft.StateCandidate || d.State == raft.StatePreCandidate) && (prev.State != d.State || prev.Term != d.Term) {
+		m.hit("C10.campaign-started")
+		if n.cfg.PreVote {
+			m.hit("C17.campaign-with-prevote")
+		}
 		for i := d.Applied + 1; i <= d.Committed; i++ {
 			if e := v.at(i); e != nil && e.GetType() != pb.EntryNormal {
 				m.report("C10", "", "node %d campaigns in term %d with a committed unapplied configuration change at %d", n.id, d.Term, i)
@@ -702,6 +748,7 @@ func (m *Monitors) afterOp(n *Node, kind string) {
 		p := m.stepPrev
 		switch msg.GetType() {
 		case pb.MsgPreVote:
+			m.hit("C17.prevote-request-stepped")
 			if d.Term != p.Term || d.Vote != p.Vote {
 				m.report("C17", "", "node %d: a pre-vote request changed term/vote %d/%d -> %d/%d", n.id, p.Term, p.Vote, d.Term, d.Vote)
 			}
@@ -718,6 +765,7 @@ func (m *Monitors) afterOp(n *Node, kind string) {
 		}
 		if t := msg.GetType(); (t == pb.MsgVote || t == pb.MsgPreVote) && n.cfg.CheckQuorum && msg.GetTerm() > p.Term &&
 			p.Lead != 0 && p.ElectionElapsed < n.cfg.ET && string(msg.GetContext()) != "CampaignTransfer" {
+			m.hit("C17.vote-request-inside-lease")
 			if d.Term != p.Term || d.Vote != p.Vote || len(d.MsgsAfterAppend) != len(p.MsgsAfterAppend) || d.State != p.State {
 				m.report("C17", "", "node %d reacted to %s from %d inside its leader lease", n.id, t, msg.GetFrom())
 			}
